@@ -338,7 +338,15 @@ func genPubCase(rr *h.Rand, o *gen.Oracle) pubCase {
 	if claim == nil {
 		cj = []byte("[]")
 	}
-	switch rr.Intn(10) {
+	switch rr.Intn(14) {
+	case 10: // namespaced claim present, its publish member absent (the plain claim is ignored then)
+		cs.ClaimsJSON = `{"mercure":{"publish":["*"]},"https://mercure.rocks/":{"subscribe":["*"]}}`
+	case 11:
+		cs.ClaimsJSON = `{"https://mercure.rocks/":{"publish":null,"subscribe":["*"]}}`
+	case 12:
+		cs.ClaimsJSON = `{"https://mercure.rocks/":{"publish":[]}}`
+	case 13:
+		cs.ClaimsJSON = `{"https://mercure.rocks/":{"publish":` + string(cj) + `}}`
 	case 0:
 		cs.ClaimsJSON = `{"mercure":{"subscribe":["*"]}}` // publish absent
 	case 1:
